@@ -8,7 +8,7 @@ import Reduino.Lemmas.C17
   (any length), every alignment and clear flag, in-range row and column.
 -/
 namespace Reduino.Props.C17
-open Reduino Reduino.Lcd
+open Reduino Reduino.Lcd Reduino.Lemmas.C17
 
 variable {K : Type} [Field K] [LinearOrder K] [IsStrictOrderedRing K] [FloorRing K]
 
@@ -27,13 +27,18 @@ theorem write_same_cells (l : Host.LCD) (g : Grid) (col row : Int) (text : List 
     (hm : Mirrors l g) (hrow : 0 ≤ row ∧ row < Int.ofNat l.rows) (hcol : 0 ≤ col ∧ col < Int.ofNat l.cols) :
     ∃ l' ps, Host.write l col row text clear align = .ok (l', ps) ∧
       Mirrors l' (Fw.writeAligned g (Int.ofNat l.cols) col row text clear align).grid := by
-  sorry
+  obtain ⟨rfl, ⟨hlen, hsh⟩, hc, hr⟩ := hm
+  obtain ⟨l', ps, e, c1, r1, b1, n1, s1, _⟩ := write_core l col row text clear align hlen hsh hrow hcol
+  exact ⟨l', ps, e, b1, ⟨by rw [← b1, n1, r1], by rw [← b1, c1]; exact s1⟩, by rw [c1]; exact hc, by rw [r1]; exact hr⟩
 
 theorem line_same_cells (l : Host.LCD) (g : Grid) (row : Int) (text : List Char) (clear : Bool) (align : Align)
     (hm : Mirrors l g) (hrow : 0 ≤ row ∧ row < Int.ofNat l.rows) :
     ∃ l' ps, Host.line l row text align clear = .ok (l', ps) ∧
       Mirrors l' (Fw.writeAligned g (Int.ofNat l.cols) 0 row text clear align).grid := by
-  sorry
+  obtain ⟨rfl, ⟨hlen, hsh⟩, hc, hr⟩ := hm
+  have hcol : (0:Int) ≤ 0 ∧ (0:Int) < Int.ofNat l.cols := ⟨Int.le_refl 0, Int.ofNat_lt.mpr hc⟩
+  obtain ⟨l', ps, e, c1, r1, b1, n1, s1, _⟩ := write_core l 0 row text clear align hlen hsh hrow hcol
+  exact ⟨l', ps, e, b1, ⟨by rw [← b1, n1, r1], by rw [← b1, c1]; exact s1⟩, by rw [c1]; exact hc, by rw [r1]; exact hr⟩
 
 /-- message on a display with at least two rows (the firmware block writes rows 0 and 1) -/
 theorem message_same_cells (l : Host.LCD) (g : Grid) (top bottom : Option (List Char)) (ta ba : Align) (clear : Bool)
@@ -46,7 +51,9 @@ theorem message_same_cells (l : Host.LCD) (g : Grid) (top bottom : Option (List 
         match bottom with
           | some b => (Fw.writeAligned g1 (Int.ofNat l.cols) 0 1 b clear ba).grid
           | none => g1) := by
-  sorry
+  obtain ⟨rfl, ⟨hlen, hsh⟩, hc, hr⟩ := hm
+  obtain ⟨l', ps, e, c1, r1, b1, n1, s1⟩ := message_core l top bottom ta ba clear hlen hsh hc hrows
+  exact ⟨l', ps, e, b1, ⟨by rw [← b1, n1, r1], by rw [← b1, c1]; exact s1⟩, by rw [c1]; exact hc, by rw [r1]; exact hr⟩
 
 /-- on a one-row display the firmware still addresses row 1 (outside the matrix): known finding K17a -/
 theorem message_one_row_counterexample :
@@ -68,23 +75,23 @@ theorem clear_same_cells (l : Host.LCD) (g : Grid) (hm : Mirrors l g) :
 theorem other_rows_untouched (g : Grid) (cols col row : Int) (text : List Char) (clear : Bool) (align : Align)
     (r : Nat) (hr : Int.ofNat r ≠ row) :
     (Fw.writeAligned g cols col row text clear align).grid.getD r [] = g.getD r [] := by
-  sorry
+  exact getD_writeAligned g cols col row text clear align r hr
 
 /-! ### never off-row -/
 
 theorem fw_never_off_row (g : Grid) (cols : Nat) (col row : Int) (text : List Char) (clear : Bool) (align : Align) :
     ∀ p ∈ (Fw.writeAligned g (Int.ofNat cols) col row text clear align).prints, InRow cols p ∧ p.row = row := by
-  sorry
+  exact writeAligned_prints g cols col row text clear align
 
 theorem host_never_off_row (l : Host.LCD) (col row : Int) (text : List Char) (clear : Bool) (align : Align)
     (l' : Host.LCD) (ps : List Print) (hcol : 0 ≤ col) (hs : Shaped l.buffer l.cols l.rows)
     (h : Host.write l col row text clear align = .ok (l', ps)) :
     (∀ p ∈ ps, InRow l.cols p ∧ p.row = row) ∧ Shaped l'.buffer l.cols l.rows := by
-  sorry
+  exact write_shape_prints l col row text clear align l' ps hcol hs.1 hs.2 h
 
 theorem fw_progress_never_off_row (g : Grid) (cols : Nat) (row value maxValue width : Int) (fill : Char) (label : List Char) :
     ∀ p ∈ (Fw.progress g (Int.ofNat cols) row value maxValue width fill label).prints, InRow cols p ∧ p.row = row := by
-  sorry
+  exact progress_prints g cols row value maxValue width fill label
 
 /-! ### progress bar -/
 
